@@ -1,9 +1,14 @@
 """C20 - code generator naming.  spec/Naming.tla (the naming rule over character sequences,
 model-checked), spec/NamingGen.tla (TLC enumerates identifiers and prints the promised file name
-for every template) -> replay on the current tools/god/util/format + util/stringx sources, copied
-into a scratch module (tools/god is a separate module that cannot be built offline)."""
-import glob, json, os, shutil, subprocess, time
+for every template) -> replay on the current tools/god/util/format + util/stringx sources (and the util/* leaf
+packages they import), copied into a scratch module that carries the path of the real module
+(github.com/gotid/god/tools/god is a separate module that cannot be built offline)."""
+import glob, json, os, re, shutil, subprocess, time
+from concurrent.futures import ThreadPoolExecutor, as_completed
 from vlib import core
+
+POOL = 3    # TLC runs in parallel (each is start-up dominated) ...
+W = 2       # ... with this many TLC workers each (4 for the casing family: 2048 templates per state)
 
 RUN = "^TestVerifC20$"
 
@@ -26,13 +31,20 @@ META = dict(
          "evaluated again in reversed and in seeded order in the same process and compared with the prediction, and "
          "the collision family (NamingPairGen.tla: all (template, identifier) readings of one character string, "
          "equal concatenation, different promised results) is evaluated in one process in forward/reversed/seeded "
-         "order. Identifier alphabets include the boundary characters a/z, A/Z, 0/9.",
-    note="Trusted: TLC, the token->rune table of the driver, the copy of the two leaf packages (tools/god/config and "
-         "the rest of the generator cannot be compiled offline). Identifier alphabet {a,b,A,B,1,_,U+4E2D} (+space for "
+         "order. Identifier alphabets include the boundary characters a/z, A/Z, 0/9 and words that start with a digit "
+         "and go on with letters (first and later position, lower/upper/title templates; the specification reports "
+         "this coverage per case and the run is refused as vacuous without it). The unicode family puts runes whose "
+         "Unicode case mapping changes the UTF-8 length or lands on an ASCII letter (U+0131, U+017F, U+0130, U+0250, "
+         "U+2C65) before, between and after the two words (rendered verbatim) and inside a would-be word "
+         "(de<U+017F>igner, des<U+0131>gner, DES<U+0130>GNER: not the word, rejected / the later real word counts).",
+    note="Trusted: TLC, the token->rune table of the driver, the copy of the leaf packages into a scratch module named "
+         "github.com/gotid/god/tools/god (util/format, util/stringx and every tools/god/util/* package they import, "
+         "packages of the root module through a replace onto the checked tree; an import of any other tools/god "
+         "package is a harness problem: tools/god/config and the rest of the generator cannot be compiled offline). Identifier alphabet {a,b,A,B,1,_,U+4E2D} (+space for "
          "camel/snake); characters for which 'title casing of a word' or 'upper-case letter' is not fixed by the "
          "statement (separators inside words, non-ASCII upper-case letters) and templates that contain 'go'/'designer' "
-         "more than once before the designer word are not generated. Templates with a rune whose upper-case form has "
-         "another UTF-8 length (U+0131, U+0250) are generated in the thorough tier only (DESIGN.md section 5).",
+         "more than once before the designer word are not generated. U+212A (Kelvin sign) is not generated: neither "
+         "word has a k.",
     technique="TLA+ naming rule + TLC-enumerated (template, identifier) cases replayed on the copied generator packages",
     design="4/C20")
 
@@ -56,8 +68,22 @@ VALID8 = ["go_designer", "goDesigner", "GoDesigner", "GODESIGNER", "x_Go-DESIGNE
           "Go_designer_x"]
 INVALID6 = ["designer", "go", "designer_go", "gO_designer", "go_dEsigner", ""]
 D, G = list("designer"), list("go")
-UNICODE = [["di"] + G + ["_"] + D, ["ta"] + G + ["_"] + D, G + ["_", "di"] + D, G + ["ta"] + D, G + ["_"] + D + ["di"],
-           G + ["_"] + D + ["ta"], ["x", "di"] + list("Go") + list("DESIGNER")]
+GD = G + ["_"] + D
+# runes whose case mapping has another UTF-8 length: di = U+0131 (upper 'I'), ls = U+017F (upper 'S'), ta = U+0250
+# (upper U+2C6F, longer), ax = U+2C65 (upper U+023A, shorter), Id = U+0130 (lower 'i')
+#  - outside the two words (prefix / between / suffix): the template is valid, the rune is copied
+UNICODE = [[u] + GD for u in ("di", "ta", "ax", "ls", "Id")] + \
+          [G + [u] + D for u in ("ta", "ax", "ls")] + [G + ["_", "di"] + D, G + ["Id", "-"] + D] + \
+          [GD + [u] for u in ("di", "ta", "ax", "ls")] + \
+          [["x", "di"] + list("Go") + list("DESIGNER"), ["ax"] + list("Go_Designer.go"), ["ta"] + list("Go_Designer.go"),
+           ["ls", "_"] + list("GO") + ["ax", "ax"] + list("Designer") + ["_", "di"]]
+#  - inside a would-be word, where a Unicode case mapping would complete the word (ls -> S, di -> I, Id -> i):
+#    the template lacks the word and is rejected; followed by a real 'designer' the real one is the word
+UNICODE += [list("gode") + ["ls"] + list("igner"), list("go_des") + ["di"] + list("gner"),
+            list("go_de") + ["ls", "di"] + list("gner"), list("GO_DE") + ["ls"] + list("IGNER"),
+            list("GO_DES") + ["Id"] + list("GNER"), list("Go_Des") + ["di"] + list("gner.go"),
+            list("go_des") + ["Id"] + list("gner"), ["ta"] + list("go-de") + ["ls"] + list("igner"),
+            list("go_de") + ["ls"] + list("igner_Designer"), list("go.des") + ["di"] + list("gner.designer")]
 NOPRODUCT = dict(TplPrefixes="{}", GoForms="{}", TplThroughs="{}", DesForms="{}", TplSuffixes="{}")
 PRODUCT = dict(TplPrefixes=sset(["", "x_"]), GoForms=sset(["go", "GO", "Go", "gO"]), TplThroughs=sset(["", "_", "-1"]),
                DesForms=sset(["designer", "DESIGNER", "Designer", "desiGner"]), TplSuffixes=sset(["", ".x"]))
@@ -99,52 +125,129 @@ PAIR_TAIL = '{"a","B","_","1"}'
 
 def pairs(ctx, binp, name, maxlen):
     """Collision family (spec/NamingPairGen.tla): all readings (template, identifier) of one string, evaluated one
-    after the other in ONE process in forward / reversed / seeded order."""
+    after the other in ONE process in forward / reversed / seeded order.  Returns the replay step (run by the
+    caller in the main thread) or None."""
     only = os.environ.get("VERIF_PLANS")
     if only and name not in only.split(","):
-        return
+        return None
     K = dict(IdChars=PAIR_TAIL, MaxLen=maxlen, Templates="<<>>", Bases=sset(PAIR_BASES))
     cfg = core.render_cfg(spec="Spec", constants=K, invariants=["Collides", "Emit"])
-    r = ctx.tlc("NamingPairGen", cfg, constants=K, name=name, timeout=900, workers=6)
+    r = ctx.tlc("NamingPairGen", cfg, constants=K, name=name, timeout=900, workers=W)
     cases = [p for p in r.printed if p.startswith('{"tail"')]
     if not cases:
         raise core.Infra("NamingPairGen printed no case")
-    path, cnt = ctx.write_cases(name + ".ndjson", cases)
-    ctx.samples += core.sample_of(cases[len(cases) // 2:], 1)
-    ctx.notes.setdefault("pairs", {})[name] = dict(tails=len(cases), bases=len(PAIR_BASES))
-    ctx.replay(".", {}, "^TestVerifC20Pairs$", path, label=name, shards=1, binp=binp)
+
+    def consume():
+        path, cnt = ctx.write_cases(name + ".ndjson", cases)
+        ctx.samples += core.sample_of(cases[len(cases) // 2:], 1)
+        ctx.notes.setdefault("pairs", {})[name] = dict(tails=len(cases), bases=len(PAIR_BASES))
+        ctx.replay(".", {}, "^TestVerifC20Pairs$", path, label=name, shards=1, binp=binp)
+    return consume
 
 
 def mc(ctx, maxlen):
     K = dict(IdChars=ID7, MaxLen=maxlen, Templates="<<" + ",".join(seq(t) for t in VALID8 + INVALID6) + ">>")
     cfg = core.render_cfg(spec="Spec", constants=K,
                           invariants=["WordsPartition", "RenderShape", "ParseRebuilds", "RoundTripModel", "Deterministic"])
-    ctx.tlc("Naming", cfg, constants=K, name="Naming-mc", workers=6, timeout=900)
+    ctx.tlc("Naming", cfg, constants=K, name="Naming-mc", workers=W, timeout=900)
+    return None
+
+
+MODPATH = "github.com/gotid/god/tools/god"   # the scratch module carries the real module's path
+ROOTMOD = "github.com/gotid/god"
+DRIVER_FILES = ("naming_test.go", "concurrent_test.go", "pairs_test.go")
+
+
+def go_imports(path):
+    """Import paths of one Go source file (import declarations precede every other declaration)."""
+    src = open(path, errors="replace").read()
+    src = re.sub(r"/\*.*?\*/", "", src, flags=re.S)
+    out = []
+    for m in re.finditer(r'^import\s*(\((.*?)\)|(?:[\w.]+\s+)?"([^"]+)")', src, flags=re.M | re.S):
+        if m.group(3):
+            out.append(m.group(3))
+        else:
+            for line in m.group(2).splitlines():
+                line = line.split("//")[0]
+                q = re.search(r'"([^"]+)"', line)
+                if q:
+                    out.append(q.group(1))
+    return out
+
+
+def requirements(gomod):
+    req = {}
+    if os.path.exists(gomod):
+        for m in re.finditer(r"^\s*(?:require\s+)?([\w./~-]+\.[\w./~-]+)\s+(v[^\s/]+)", open(gomod).read(), flags=re.M):
+            req.setdefault(m.group(1), m.group(2))
+    return req
+
+
+def copy_sources(mod):
+    """Copy the current non-test sources of tools/god/util/{format,stringx} into the scratch module at the same
+    relative path, plus - transitively - every other tools/god/util/<leaf> package they import.  Returns the
+    relative package directories and the third-party / root-module import paths met on the way."""
+    god = os.path.join(core.REPO, "tools", "god")
+    todo, done, foreign = ["util/format", "util/stringx"], [], set()
+    while todo:
+        rel = todo.pop(0)
+        if rel in done:
+            continue
+        src = os.path.join(god, rel)
+        files = [f for f in sorted(glob.glob(os.path.join(src, "*.go"))) if not f.endswith("_test.go")]
+        if not files:
+            raise core.Infra("tools/god/%s has no Go sources under %s" % (rel, god))
+        os.makedirs(os.path.join(mod, rel))
+        for f in files:
+            shutil.copy(f, os.path.join(mod, rel))
+            for imp in go_imports(f):
+                if imp == MODPATH or imp.startswith(MODPATH + "/"):
+                    dep = imp[len(MODPATH) + 1:]
+                    if not re.fullmatch(r"util/[^/]+", dep):
+                        raise core.Infra("tools/god/%s imports %s: only the leaf packages tools/god/util/* can be copied "
+                                         "into the scratch module (the rest of the generator does not build offline)"
+                                         % (rel, imp))
+                    if dep not in done and dep not in todo:
+                        todo.append(dep)
+                elif "." in imp.split("/")[0]:
+                    foreign.add(imp)
+        done.append(rel)
+    return done, foreign
 
 
 def build_driver(ctx):
-    """Copy the current format/stringx sources (non-test files) + kit + driver into a scratch module."""
+    """Copy the current format/stringx sources (non-test files, and the util/* leaf packages they import) + kit +
+    driver into a scratch module that has the path of the real module, so that imports between the copied
+    packages resolve exactly as in tools/god."""
     mod = os.path.join(ctx.build, "mod")
     shutil.rmtree(mod, ignore_errors=True)
-    util = os.path.join(core.REPO, "tools", "god", "util")
-    ncopied = 0
-    for pkg in ("format", "stringx"):
-        os.makedirs(os.path.join(mod, pkg))
-        for f in sorted(glob.glob(os.path.join(util, pkg, "*.go"))):
-            if f.endswith("_test.go"):
-                continue
-            shutil.copy(f, os.path.join(mod, pkg))
-            ncopied += 1
-    if ncopied < 2:
-        raise core.Infra("tools/god/util/{format,stringx} sources not found under %s" % util)
-    os.makedirs(os.path.join(mod, "verifkit"))
+    pkgs, foreign = copy_sources(mod)
+    ctx.notes["copied_packages"] = ["tools/god/" + p for p in pkgs]
+    os.makedirs(os.path.join(mod, "zz_verif", "kit"))
     for f in glob.glob(os.path.join(core.HARNESS, "kit", "*.go")):
-        shutil.copy(f, os.path.join(mod, "verifkit"))
-    os.makedirs(os.path.join(mod, "drv"))
-    for f in ("naming_test.go", "concurrent_test.go", "pairs_test.go"):
-        shutil.copy(os.path.join(core.HARNESS, "c20", f), os.path.join(mod, "drv", f))
-    open(os.path.join(mod, "go.mod"), "w").write("module verifc20\n\ngo 1.19\n\nrequire golang.org/x/text v0.5.0\n")
-    # checksums of the cached golang.org/x/text: the repository's go.sum when there is one (an
+        shutil.copy(f, os.path.join(mod, "zz_verif", "kit"))
+    os.makedirs(os.path.join(mod, "zz_verif", "drv"))
+    for f in DRIVER_FILES:
+        shutil.copy(os.path.join(core.HARNESS, "c20", f), os.path.join(mod, "zz_verif", "drv", f))
+    # requirements: the versions the repository's root module pins (those are in the module cache), then the ones of
+    # tools/god/go.mod; golang.org/x/text v0.5.0 is what the cache holds for the stringx package
+    pins = requirements(os.path.join(core.REPO, "go.mod"))
+    for k, v in requirements(os.path.join(core.REPO, "tools", "god", "go.mod")).items():
+        pins.setdefault(k, v)
+    pins.setdefault("golang.org/x/text", "v0.5.0")
+    req, replace = {"golang.org/x/text": pins["golang.org/x/text"]}, ""
+    for imp in sorted(foreign):
+        if imp == ROOTMOD or imp.startswith(ROOTMOD + "/"):
+            # a package of the repository's root module: the current tree itself
+            req[ROOTMOD] = "v0.0.0"
+            replace = "\nreplace %s => %s\n" % (ROOTMOD, core.REPO)
+            continue
+        owner = max([m for m in pins if imp == m or imp.startswith(m + "/")], key=len, default=None)
+        if owner:
+            req[owner] = pins[owner]
+    open(os.path.join(mod, "go.mod"), "w").write("module %s\n\ngo 1.19\n\nrequire (\n%s)\n%s" % (
+        MODPATH, "".join("\t%s %s\n" % kv for kv in sorted(req.items())), replace))
+    # checksums of the cached modules: the repository's go.sum when there is one (an
     # untracked file in some trees); with -mod=mod and GOSUMDB=off go re-derives them from the
     # module cache otherwise
     for cand in (os.path.join(core.REPO, "go.sum"), os.path.join(core.REPO, "tools", "god", "go.sum")):
@@ -153,13 +256,15 @@ def build_driver(ctx):
             break
     e = dict(os.environ)
     e.update(core.GOENV)
+    e["GOWORK"] = "off"
     bins = []
     for name, flags in (("c20drv", []), ("c20race", ["-race"])):
         binp = os.path.join(ctx.build, name + ".test")
         t0 = time.time()
-        p = subprocess.run(["go", "test", "-c", "-vet=off"] + flags + ["-o", binp, "./drv"], cwd=mod, env=e,
+        p = subprocess.run(["go", "test", "-c", "-vet=off"] + flags + ["-o", binp, "./zz_verif/drv"], cwd=mod, env=e,
                            capture_output=True, text=True, timeout=900)
-        core.log("go build %s (scratch module): rc=%s %.1fs" % (name, p.returncode, time.time() - t0))
+        core.log("go build %s (scratch module %s: %s): rc=%s %.1fs" % (name, MODPATH, " ".join(pkgs), p.returncode,
+                                                                     time.time() - t0))
         if p.returncode != 0 or not os.path.exists(binp):
             raise core.Infra("driver %s does not build against the current tools/god/util sources:\n%s"
                              % (name, (p.stdout + p.stderr)[-4000:]))
@@ -169,11 +274,16 @@ def build_driver(ctx):
 
 def concurrent(ctx, racebin, binp, name, plan, goroutines=16, iters=3, **kw):
     """N goroutines evaluate every pair of a TLC-generated file at overlapping times: first the race-detector
-    build (stops at the first report), then - if it reported nothing - the plain build (more overlap)."""
+    build (stops at the first report), then - if it reported nothing - the plain build (more overlap).
+    Generates the cases and returns the stage itself as a step for the main thread (or None)."""
     only = os.environ.get("VERIF_PLANS")
     if only and name not in only.split(","):
-        return
+        return None
     header, cases = gen(ctx, name, plan, **kw)
+    return lambda: concurrent_run(ctx, racebin, binp, name, header, cases, goroutines, iters)
+
+
+def concurrent_run(ctx, racebin, binp, name, header, cases, goroutines, iters):
     path, cnt = ctx.write_cases(name + ".ndjson", [header] + cases)
     ctx.notes.setdefault("pairs", {})[name] = dict(identifiers=len(cases), templates=len(json.loads(header)["templates"]),
                                                    goroutines=goroutines, iterations=iters)
@@ -221,11 +331,11 @@ def concurrent(ctx, racebin, binp, name, plan, goroutines=16, iters=3, **kw):
             return
 
 
-def gen(ctx, name, plan, simulate=None, depth=None):
+def gen(ctx, name, plan, simulate=None, depth=None, workers=None):
     K = dict(PLANS[plan])
     cfg = core.render_cfg(spec="Spec", constants=K, invariants=["Emit"])
     r = ctx.tlc("NamingGen", cfg, constants=K, name=name, simulate=simulate, depth=depth, timeout=1500,
-                workers=(1 if simulate else 6))
+                workers=(1 if simulate else (workers or W)))
     header = [p for p in r.printed if p.startswith('{"templates"')]
     cases = [p for p in r.printed if not p.startswith('{"templates"')]
     if not header or not cases:
@@ -238,12 +348,53 @@ def gen(ctx, name, plan, simulate=None, depth=None):
 def one(ctx, binp, name, plan, **kw):
     only = os.environ.get("VERIF_PLANS")  # development aid: run a subset of the plans
     if only and name.split("-")[0] not in only.split(","):
-        return
+        return None
     header, cases = gen(ctx, name, plan, **kw)
+    return lambda: one_replay(ctx, binp, name, header, cases)
+
+
+def one_replay(ctx, binp, name, header, cases):
     path, cnt = ctx.write_cases(name + ".ndjson", [header] + cases)
     ctx.samples += core.sample_of(cases[len(cases) // 2:], 1)
-    ctx.notes.setdefault("pairs", {})[name] = dict(identifiers=len(cases), templates=len(json.loads(header)["templates"]))
-    ctx.replay(".", {}, RUN, path, label=name, shards=16, binp=binp)
+    tpls = json.loads(header)["templates"]
+    ctx.notes.setdefault("pairs", {})[name] = dict(identifiers=len(cases), templates=len(tpls))
+    # what the family covers, as reported by the specification itself (vacuity guard, see vacuity())
+    ctx.notes.setdefault("covers", {})[name] = dict(
+        digit_led_first_word=sum(1 for c in cases if '"dw":[true,' in c),
+        digit_led_later_word=sum(1 for c in cases if re.search(r'"dw":\[(true|false),true\]', c)),
+        first_word_styles=sorted({t["gs"] for t in tpls if t["valid"]}),
+        later_word_styles=sorted({t["ds"] for t in tpls if t["valid"]}),
+        rendered_templates=sum(1 for t in tpls if t["valid"]),
+        rejected_templates=sum(1 for t in tpls if not t["valid"]),
+        rejected_with_named_rune=sum(1 for t in tpls if not t["valid"] and any(len(c) > 1 for c in t["t"])),
+        rendered_with_named_rune=sum(1 for t in tpls if t["valid"] and any(len(c) > 1 for c in t["t"])))
+    ctx.replay(".", {}, RUN, path, label=name, shards=8, binp=binp)
+
+
+STYLES = ["lower", "title", "upper"]
+
+
+def vacuity(ctx, family):
+    """Evaluated only when no disagreement was found: the run must have offered what it claims to decide.
+    - words that start with a digit and go on with letters (title casing leaves them alone) in first and in later
+      position, each with lower / upper / title templates, in the complete enumeration `family`;
+    - templates with case-length-changing runes outside the words (rendered) and inside a would-be word (rejected)."""
+    cov = ctx.notes.get("covers", {})
+    only = os.environ.get("VERIF_PLANS")
+    c = cov.get(family)
+    if c is not None:
+        if not (c["digit_led_first_word"] and c["digit_led_later_word"]
+                and c["first_word_styles"] == STYLES and c["later_word_styles"] == STYLES):
+            raise core.Infra("vacuous run: family %s offers no digit-led word in first and later position under all "
+                             "three styles: %s" % (family, c))
+    elif not only:
+        raise core.Infra("vacuous run: family %s was not generated" % family)
+    u = cov.get("unicode")
+    if u is not None:
+        if u["rejected_with_named_rune"] < 5 or u["rendered_with_named_rune"] < 10:
+            raise core.Infra("vacuous run: the unicode family lacks rendered/rejected templates with non-ASCII runes: %s" % u)
+    elif not only:
+        raise core.Infra("vacuous run: the unicode family was not generated")
 
 
 def run(ctx):
@@ -256,29 +407,70 @@ def run(ctx):
         "(and the empty identifier); elsewhere only 'does not panic' is compared for ToCamel/ToSnake",
         "templates in which 'go' or 'designer' occurs more than once before the designer word are not generated",
     ]
-    mc(ctx, 3 if ctx.quick else 4)
     binp, racebin = build_driver(ctx)
     ctx.exhaustive = True
-    one(ctx, binp, "casing", "casing")
-    one(ctx, binp, "unicode", "unicode")
+    # every job = one TLC run (model checking / case generation) executed in the pool; what it returns is the
+    # replay step on the copied sources, run here in the main thread as soon as its cases exist
     if ctx.quick:
-        one(ctx, binp, "ids4", "ids4")
-        one(ctx, binp, "tpl2", "tpl2")
-        one(ctx, binp, "space4", "space4")
-        one(ctx, binp, "bound5", "bound5")
-        pairs(ctx, binp, "collide", 3)
-        one(ctx, binp, "sim", "sim", simulate=200, depth=13)
-        concurrent(ctx, racebin, binp, "conc", "conc", simulate=40, depth=16)
+        jobs = [("casing", lambda: one(ctx, binp, "casing", "casing", workers=4)),
+                ("sim", lambda: one(ctx, binp, "sim", "sim", simulate=200, depth=13)),
+                ("tpl2", lambda: one(ctx, binp, "tpl2", "tpl2")),
+                ("mc", lambda: mc(ctx, 3)),
+                ("ids4", lambda: one(ctx, binp, "ids4", "ids4")),
+                ("unicode", lambda: one(ctx, binp, "unicode", "unicode")),
+                ("bound5", lambda: one(ctx, binp, "bound5", "bound5")),
+                ("collide", lambda: pairs(ctx, binp, "collide", 3)),
+                ("space4", lambda: one(ctx, binp, "space4", "space4")),
+                ("conc", lambda: concurrent(ctx, racebin, binp, "conc", "conc", simulate=40, depth=16))]
+        family = "ids4"
     else:
-        one(ctx, binp, "ids5", "ids5")
-        one(ctx, binp, "ids6", "ids6")
-        one(ctx, binp, "tpl3", "tpl3")
-        one(ctx, binp, "space6", "space6")
-        one(ctx, binp, "bound6", "bound6")
-        one(ctx, binp, "bound8c", "bound8c")
-        pairs(ctx, binp, "collide", 4)
-        one(ctx, binp, "sim", "sim", simulate=2500, depth=13)
-        concurrent(ctx, racebin, binp, "conc", "conc", goroutines=16, iters=10, simulate=150, depth=16)
+        jobs = [("sim", lambda: one(ctx, binp, "sim", "sim", simulate=2500, depth=13)),   # one TLC worker: longest
+                ("ids6", lambda: one(ctx, binp, "ids6", "ids6")),
+                ("tpl3", lambda: one(ctx, binp, "tpl3", "tpl3")),
+                ("bound6", lambda: one(ctx, binp, "bound6", "bound6")),
+                ("ids5", lambda: one(ctx, binp, "ids5", "ids5")),
+                ("bound8c", lambda: one(ctx, binp, "bound8c", "bound8c")),
+                ("casing", lambda: one(ctx, binp, "casing", "casing", workers=4)),
+                ("mc", lambda: mc(ctx, 4)),
+                ("space6", lambda: one(ctx, binp, "space6", "space6")),
+                ("collide", lambda: pairs(ctx, binp, "collide", 4)),
+                ("unicode", lambda: one(ctx, binp, "unicode", "unicode")),
+                ("conc", lambda: concurrent(ctx, racebin, binp, "conc", "conc", goroutines=16, iters=10, simulate=150,
+                                            depth=16))]
+        family = "ids5"
+
+    def produce(job):
+        try:
+            return job[0], job[1](), None
+        except Exception as e:      # re-raised in the main thread
+            return job[0], None, e
+
+    first_err, last = None, []
+    with ThreadPoolExecutor(POOL) as ex:
+        for fut in as_completed([ex.submit(produce, j) for j in jobs]):
+            name, step, err = fut.result()
+            if err is not None:
+                first_err = first_err or err
+            elif name == "conc":
+                last.append(step)      # the 16-goroutine stage runs alone, after the pool
+            elif step is not None:
+                try:
+                    step()
+                except core.Infra as e:
+                    first_err = first_err or e
+    for step in last:
+        if step is not None and first_err is None:
+            try:
+                step()
+            except core.Infra as e:
+                first_err = e
+    # (a harness problem of one stage must not turn disagreements observed in another one into exit 2)
+    if first_err is not None:
+        if not ctx.disagreements:
+            raise first_err
+        ctx.notes["harness_problem_besides_disagreement"] = str(first_err)[:600]
+    if not ctx.disagreements:
+        vacuity(ctx, family)
 
 
 def replay(ctx, rp):
